@@ -8,8 +8,10 @@ import (
 	"encoding/xml"
 	"fmt"
 	"io"
+	"mime"
 	"net/http"
 	"reflect"
+	"strconv"
 	"strings"
 	"testing"
 
@@ -82,11 +84,29 @@ func TestVerif_C17_body(t *testing.T) {
 		if r.Intn(2) == 0 {
 			reqCT = ""
 		}
+		// the ROUTE a preset takes: the dedicated setter, the generic header setter (any letter
+		// case of the name), a header map
 		if clientCT != "" {
-			c.SetCommonContentType(clientCT)
+			switch (i / 5) % 3 {
+			case 0:
+				c.SetCommonContentType(clientCT)
+			case 1:
+				c.SetCommonHeader("content-type", clientCT)
+			default:
+				c.SetCommonHeaders(map[string]string{"Content-Type": clientCT})
+			}
+			s.Count("client-preset-route-" + strconv.Itoa((i/5)%3))
 		}
 		if reqCT != "" {
-			req.SetContentType(reqCT)
+			switch (i / 3) % 3 {
+			case 0:
+				req.SetContentType(reqCT)
+			case 1:
+				req.SetHeader("content-type", reqCT)
+			default:
+				req.SetHeaders(map[string]string{"Content-Type": reqCT})
+			}
+			s.Count("request-preset-route-" + strconv.Itoa((i/3)%3))
 		}
 		var rq, cl c17KV
 		var ordArgs []string
@@ -314,6 +334,44 @@ func TestVerif_C17_body(t *testing.T) {
 		s.Case(line, impl, ok, class, !failed && !bodyNil,
 			fmt.Sprintf("%s allowGet=%v multipart=%v reqForm=%q clientForm=%q ordered=%q files=%s marshal=%v(%T) raw=%v reqCT=%q clientCT=%q -> failed=%v body=%q ct=%q",
 				method, allowGet, multipartOn, rq.values(), cl.values(), ordArgs, c17DescribeFiles(files), marshalSet, marshalVal, rawSet, reqCT, clientCT, failed, c17Trunc(string(body), 120), ct))
+		// the DECISION TABLE (Body.kindTable / expectedCT) and the server's choice of parser
+		// (Body.serverParser), read off the real request: which of the described bodies went out,
+		// under which Content-Type, and which parser net/http's parsePostForm picks for it
+		if !failed {
+			kind := "form"
+			switch {
+			case bodyNil:
+				kind = "none"
+			case multipartOn && (bytes.HasPrefix(body, []byte("--"+b)) || bytes.HasPrefix(body, []byte("\r\n--"+b+"--"))):
+				kind = "multipart"
+			case marshalSet && !hasForm && jerr == nil && bytes.Equal(body, js):
+				kind = "marshal-json"
+			case marshalSet && !hasForm && xerr == nil && bytes.Equal(body, xs):
+				kind = "marshal-xml"
+			case rawSet && !hasForm && !marshalSet && bytes.Equal(body, raw):
+				kind = "raw"
+			}
+			parser := "other"
+			if mt, params, perr := mime.ParseMediaType(ct); perr == nil {
+				switch mt {
+				case "application/x-www-form-urlencoded":
+					parser = "urlencoded"
+				case "multipart/form-data":
+					if bd, has := params["boundary"]; has {
+						parser = "multipart:" + verifh.Hex(bd)
+					}
+				}
+			}
+			tok := ok
+			switch kind {
+			case "form":
+				tok = tok && parser == "urlencoded"
+			case "multipart":
+				tok = tok && parser == "multipart:"+verifh.Hex(b)
+			}
+			s.Case("c17bodytable"+strings.TrimPrefix(line, "c17body"), "kind="+kind+" ct="+verifh.Hex(ct)+" parser="+parser, tok, class, !bodyNil,
+				fmt.Sprintf("decision table: %s reqCT=%q clientCT=%q multipart=%v form=%v marshal=%v raw=%v -> a %s body under %q, the server parses it as %s", method, reqCT, clientCT, multipartOn, hasForm, marshalSet, rawSet, kind, ct, parser))
+		}
 	}
 	s.Finish()
 }
